@@ -17,7 +17,7 @@ from sa.model import Repo
 from sa.norm import T
 from sa.report import Check
 
-from .common import callee_name, depends_on, flow_of, has_fact, subexprs
+from .common import kwarg, callee_name, depends_on, flow_of, has_fact, subexprs
 
 STRIDE = "snaxc/ir/tsl/stride.py"
 TSTRIDE = "snaxc/ir/tsl/tiled_stride.py"
@@ -45,6 +45,7 @@ def run(repo: Repo, chk: Check) -> None:
     canonicalize(repo, chk)
     lccb(repo, chk)
     op_builders(repo, chk)
+    subview_pointer(repo, chk)
 
 
 # --------------------------------------------------------------------------- fields
@@ -118,11 +119,17 @@ def nullable(repo: Repo, chk: Check) -> None:
         f, fl = flow_of(repo, chk, PARSER, qual)
         ok = False
         if fld == "offset":
-            for s in fl.stmts(ast.Assign, ast.AnnAssign):
-                t = s.node.targets[0] if isinstance(s.node, ast.Assign) else s.node.target
-                if isinstance(t, ast.Name) and t.id == "offset" and s.node.value is not None and not isinstance(s.node.value, ast.Constant):
-                    ok = norm.match(T("self._parse_int_or_question()"), s.node.value) is not None or norm.match(T("self._parse_int_or_question($_)"), s.node.value) is not None
-                    where = s.where()
+            # by dataflow, not by name: whatever reaches the `offset` of the constructed layout
+            where = f.where
+            for s in fl.calls("TiledStridedLayout"):
+                c = s.node
+                arg = kwarg(c, "offset", 1)
+                if arg is None:
+                    continue
+                cone = fl.cone(arg, s, inline=0)
+                ok = any(isinstance(n, ast.Call) and callee_name(n) == "_parse_int_or_question" for n in ast.walk(cone)) and not any(
+                    isinstance(n, ast.Call) and callee_name(n) in ("parse_integer", "_parse_int") for n in ast.walk(cone))
+                where = s.where()
         else:
             apps = fl.calls("append")
             ok = bool(apps) and all(callee_name(s.node.args[0]) == "_parse_int_or_question" for s in apps)
@@ -344,15 +351,18 @@ def lccb(repo: Repo, chk: Check) -> None:
         chk.result(ok, "C10.lccb", f"{f.key}:common", s.where(), "only strides equal in both layouts are appended",
                    "a stride is appended to the common block without being equal to the other layout's stride at the same position", s.fact_texts)
     sel = False
+    cur = None
     for n in ast.walk(f.node):
         if isinstance(n, ast.GeneratorExp):
             for g in n.generators:
                 for c in g.ifs:
-                    if norm.any_match(["$s.step == current_stride", "current_stride == $s.step"], c) is not None:
+                    m = norm.any_match(["$s.step == $c", "$c == $s.step"], c)
+                    if m is not None and isinstance(m["c"], ast.Name):
                         sel = True
+                        cur = m["c"].id
     chk.result(sel, "C10.lccb", f"{f.key}:continues-extent", f.where, "candidates are selected by step == running extent",
                "the next stride is no longer selected by `step == current extent`: the block is not contiguous")
-    upd = [s for s in fl.stmts(ast.Assign) if s.reachable and isinstance(s.node.targets[0], ast.Name) and s.node.targets[0].id == "current_stride" and s.loops]
+    upd = [s for s in fl.stmts(ast.Assign) if s.reachable and isinstance(s.node.targets[0], ast.Name) and s.node.targets[0].id == cur and s.loops]
     ok = any(norm.any_match(["$s.step * $s.bound", "$s.bound * $s.step"], s.node.value) is not None for s in upd)
     chk.result(ok, "C10.lccb", f"{f.key}:extent-update", upd[0].where() if upd else f.where, "running extent := step * bound of the appended stride")
 
@@ -361,7 +371,12 @@ def lccb(repo: Repo, chk: Check) -> None:
 def op_builders(repo: Repo, chk: Check) -> None:
     chk.rule("C10.view-coverage", "get_bound_ops / get_step_ops produce an entry for every (dim, depth); static steps are scaled by the element size when bytes are requested", floor=4)
     f, fl = flow_of(repo, chk, DIALECT, "TiledStridedLayoutAttr.get_bound_ops")
-    stores = [s for s in fl.stmts(ast.Assign) if s.reachable and isinstance(s.node.targets[0], ast.Subscript) and ast.unparse(s.node.targets[0].value) == "result_mapping"]
+    # the mapping is whatever the function returns second (not a name)
+    maps = {ast.unparse(r.node.value.elts[1]) for r in fl.stmts(ast.Return) if isinstance(r.node.value, ast.Tuple) and len(r.node.value.elts) == 2 and isinstance(r.node.value.elts[1], ast.Name)}
+    if len(maps) != 1:
+        raise AnalysisError(f"{f.where}: the returned (ops, mapping) pair not found")
+    mapping = maps.pop()
+    stores = [s for s in fl.stmts(ast.Assign) if s.reachable and isinstance(s.node.targets[0], ast.Subscript) and ast.unparse(s.node.targets[0].value) == mapping]
     outer = [s for s in stores if not any(isinstance(l, ast.For) and norm.match(T("range(1, $_.depth())"), l.iter) is not None for l in s.loops)]
     inner = [s for s in stores if s not in outer]
     ok_outer = len(outer) >= 2 and any(has_fact(s, ["$s.bound is not None"]) for s in outer) and any(has_fact(s, ["$s.bound is None"]) for s in outer)
@@ -377,7 +392,11 @@ def op_builders(repo: Repo, chk: Check) -> None:
                "a dynamic outermost bound = dim size / product of the static inner tile bounds of the same dimension")
     g, gfl = flow_of(repo, chk, DIALECT, "TiledStridedLayoutAttr.get_step_ops")
     consts = [s for s in gfl.calls("from_int_and_width") if s.reachable and s.loops]
-    oks = any(norm.any_match(["$s.step * el_bytes", "el_bytes * $s.step"], s.node.args[0]) is not None for s in consts)
+    oks = False
+    for s in consts:
+        m = norm.any_match(["$s.step * $e", "$e * $s.step"], s.node.args[0])
+        if m is not None and norm.contains(gfl.cone(m["e"], s, inline=0), T("$t.element_type.size")):
+            oks = True
     chk.result(oks, "C10.view-coverage", f"{g.key}:static-step-bytes", consts[0].where() if consts else g.where,
                "static steps are multiplied by the element size (1 when element units are requested)",
                "static step ops are no longer scaled by el_bytes")
@@ -385,3 +404,65 @@ def op_builders(repo: Repo, chk: Check) -> None:
     okl = any(norm.match(T("reversed(range($t.dimension()))"), s.node.iter) is not None for s in loops) and any(
         norm.match(T("reversed(range($t.tstrides[$d].depth()))"), s.node.iter) is not None for s in loops)
     chk.result(okl, "C10.view-coverage", f"{g.key}:all-levels", g.where, "steps are assigned for every dimension and depth, innermost first")
+
+
+# --------------------------------------------------------------------------- subview pointer arithmetic
+M2A = "snaxc/transforms/convert_memref_to_arith.py"
+
+
+def subview_pointer(repo: Repo, chk: Check) -> None:
+    chk.rule(
+        "C10.subview-pointer",
+        "subview lowering on a tiled-strided source: the k-th dynamic offset operand is paired with the dimension of the k-th DYNAMIC entry of "
+        "static_offsets (the operand list holds only the dynamic offsets); that dimension's pointer term is "
+        "(offset div product of the inner tile bounds) * outermost step * element bytes, all three read at the same dimension",
+        floor=3,
+    )
+    f, fl = flow_of(repo, chk, M2A, "LowerExtractAlignedPointerOp.match_and_rewrite")
+    key = f.key
+    # every use of a layout dimension `<layout>.tstrides[i]` inside the loop over the dynamic offsets
+    n = 0
+    dims: list[ast.expr] = []
+    for s in fl.sites:
+        if not s.loops or not any(isinstance(l, ast.For) and norm.contains(l.iter, T("$v.offsets")) for l in s.loops):
+            continue
+        if s.node is not s.stmt:
+            continue
+        for node in ast.walk(s.node):
+            m = norm.match(T("$l.tstrides[$i]"), node) if isinstance(node, ast.Subscript) else None
+            if m is None:
+                continue
+            n += 1
+            cone = fl.cone(m["i"], s, inline=0)
+            dims.append(cone)
+            dyn = depends_on(cone, "$_ == DYNAMIC_INDEX", "$_ != DYNAMIC_INDEX", "$_ is DYNAMIC_INDEX", "$_ == memref.DYNAMIC_INDEX", "$_ == builtin.DYNAMIC_INDEX")
+            over_static = norm.contains(cone, T("$v.static_offsets"))
+            chk.result(dyn and over_static, "C10.subview-pointer", f"{key}:dimension-of-operand#{n}", s.where(),
+                       "the layout dimension is the position of the operand's DYNAMIC entry in static_offsets",
+                       f"the layout dimension `{ast.unparse(m['i'])}` paired with a dynamic offset operand does not come from the positions of the DYNAMIC entries of "
+                       "static_offsets: with a static offset in front of a dynamic one the operand is scaled with another dimension's step and tile size")
+    if n == 0:
+        raise AnalysisError(f"{f.where}: no `<layout>.tstrides[i]` inside a loop over the subview's dynamic offsets")
+    # the term: DivUIOp(offset, prod(inner bounds)) * (outermost step * bytes)
+    divs = [s for s in fl.calls("DivUIOp") if s.reachable and s.loops]
+    okd = False
+    for s in divs:
+        if len(s.node.args) < 2:
+            continue
+        c = fl.cone(s.node.args[1], s, inline=0)
+        okd = okd or any(
+            isinstance(g, (ast.GeneratorExp, ast.ListComp)) and norm.contains(g.generators[0].iter, T("$l.tstrides[$i].strides[1:]")) and norm.contains(g.elt, T("$s.bound"))
+            for g in ast.walk(c))
+    chk.result(okd, "C10.subview-pointer", f"{key}:inner-tile-size", divs[0].where() if divs else f.where,
+               "the offset is divided by the product of the bounds of the inner tile levels (strides[1:]) of its dimension",
+               "the offset is not divided by the product of the inner tile bounds of its dimension")
+    muls = [s for s in fl.calls("MuliOp") if s.reachable and s.loops]
+    okm = False
+    for s in muls:
+        c = fl.cone(ast.Tuple(list(s.node.args), ast.Load()), s, inline=0)
+        if norm.contains(c, T("$l.tstrides[$i].strides[0].step")) and (norm.contains(c, T("$e.size")) or norm.contains(c, T("$t.element_type.size"))) and any(
+                isinstance(x, ast.Call) and callee_name(x) == "DivUIOp" for x in ast.walk(c)):
+            okm = True
+    chk.result(okm, "C10.subview-pointer", f"{key}:term", muls[0].where() if muls else f.where,
+               "pointer term = (offset div inner tile size) * outermost step * element bytes",
+               "the pointer term is no longer (offset div inner tile size) * outermost step of that dimension * element bytes")
